@@ -13,7 +13,7 @@
 # limitations under the License.
 """Deduping DNA generator."""
 
-from typing import Any, Tuple, Union
+from typing import Iterable, Tuple, Union
 
 from pyglove.core import symbolic
 from pyglove.core import typing as pg_typing
@@ -131,9 +131,34 @@ class Deduping(DNAGenerator):
     self.generator.feedback(dna, reward)
     self._add_dna_to_cache(dna, reward)
 
-  def _replay(self, trial_id: int, dna: DNA, reward: Any) -> None:
-    self.generator._replay(trial_id, dna, reward)  # pylint: disable=protected-access
-    self._add_dna_to_cache(dna, reward)
+  def recover(
+      self,
+      history: Iterable[Tuple[DNA, Union[None, float, Tuple[float]]]]
+  ) -> None:
+    """Recovers the inner generator and the dedup cache from the history."""
+    history = list(history)
+
+    def inner_reward(reward):
+      # Rewards reach the inner generator only when it takes feedback, with the
+      # same conversion as `DNAGenerator.feedback` applies to live feedbacks.
+      if not self.needs_feedback:
+        return None
+      if (reward is not None and self.generator.multi_objective
+          and isinstance(reward, float)):
+        return (reward,)
+      return reward
+
+    # NOTE: the inner generator recovers through its own `recover`, which
+    # restores its counters and whatever states it derives from the history.
+    self.generator.recover([(dna, inner_reward(r)) for dna, r in history])
+    for dna, reward in history:
+      # When the inner generator takes feedback, duplicates are accounted when
+      # they are fed back, thus pending proposals are not in the cache yet.
+      if reward is not None or not self.needs_feedback:
+        self._add_dna_to_cache(dna, reward)
+      self._num_proposals += 1
+      if reward is not None:
+        self._num_feedbacks += 1
 
   def _add_dna_to_cache(
       self, dna: DNA, reward: Union[None, float, Tuple[float]]) -> None:
